@@ -119,7 +119,7 @@ AolAddRecord(m, s, now) ==
 -----------------------------------------------------------------------------
 (* x/did — abstract documents and proofs                                   *)
 (* doc   = [id, vms : set of [n,key,type], auth : set of [n,ded,key,type], asrt : set of names,    *)
-(*          ex : "" | "rich" (controller list, second context, key agreement, capability            *)
+(*          ex : "" | "rich" | "rich2" | "xvm" (controller list, second context, key agreement, capability            *)
 (*          invocation, three services two of which share an id - carried verbatim by the registry)] *)
 (* proof = [key, data, seq]: a real secp256k1 signature by `key` over       *)
 (*         proto(DataWithSeq{marshal(data), seq}); key "none" = no signature *)
@@ -132,6 +132,7 @@ VmByName(doc, n) == {v \in doc.vms : v.n = n}
 DocValid(doc) ==
     /\ doc.id # ""
     /\ doc.vms # {} /\ doc.auth # {}        \* nil slices after decoding
+    /\ doc.ex # "xvm"                       \* every method id must be "<doc.id>#name": a document whose methods carry ANOTHER did's prefix is malformed
     /\ \A a \in doc.auth : a.ded \/ VmByName(doc, a.n) # {}
     /\ \A n \in doc.asrt : VmByName(doc, n) # {}
 
@@ -362,18 +363,22 @@ FirstStateless(msgs, i) ==
     IF i > Len(msgs) THEN ""
     ELSE IF Stateless(msgs[i]) # "" THEN Stateless(msgs[i]) ELSE FirstStateless(msgs, i + 1)
 
+\* The declared fee: tx.fee abstract units of umed plus (optional field fee2) an amount of the second denomination - any coin the payer holds
+\* is a legal fee coin, and the WHOLE declared fee is what moves.
+FeeOf(tx, d) == IF d = "umed" THEN tx.fee * FeeUnit ELSE IF "fee2" \in DOMAIN tx THEN tx.fee2 ELSE 0
+
 \* The outcome of delivering tx in the current state (a value; Deliver turns it into the next state).
 Outcome(tx) ==
     LET s0  == CS
         vb  == FirstStateless(tx.msgs, 1)
-        req == Required(tx)
-        fee == tx.fee * FeeUnit IN
+        req == Required(tx) IN
     IF vb # "" THEN [result |-> "ante", failIdx |-> 0, code |-> vb, s |-> s0, offs |-> <<>>]
-    ELSE IF fee > 0 /\ SpendableAt(s0, Payer(tx), "umed", height) < fee
+    ELSE IF \E d \in Denoms : FeeOf(tx, d) > 0 /\ SpendableAt(s0, Payer(tx), d, height) < FeeOf(tx, d)
          THEN [result |-> "ante", failIdx |-> 0, code |-> "sdk/5", s |-> s0, offs |-> <<>>]
     ELSE IF \E i \in 1..Len(req) : req[i] \notin tx.signers
          THEN [result |-> "ante", failIdx |-> 0, code |-> "sdk/4", s |-> s0, offs |-> <<>>]
-    ELSE LET s1 == IF fee > 0 THEN Move(s0, Payer(tx), FeeColl, "umed", fee) ELSE s0
+    ELSE LET sa == IF FeeOf(tx, "umed") > 0 THEN Move(s0, Payer(tx), FeeColl, "umed", FeeOf(tx, "umed")) ELSE s0
+             s1 == IF FeeOf(tx, "ubig") > 0 THEN Move(sa, Payer(tx), FeeColl, "ubig", FeeOf(tx, "ubig")) ELSE sa
              r  == IF tx.exec = "none" THEN RunMsgs(tx.msgs, 1, s1, height, <<>>)
                    ELSE RunExec(tx.msgs, 1, tx.exec, s1, height, <<>>) IN
          IF r.ok THEN [result |-> "ok", failIdx |-> 0, code |-> "", s |-> r.s, offs |-> r.offs]
